@@ -244,7 +244,9 @@ void Image::load(FILE* f) {
 
     DataPtrs new_data;
     size_t channels_factor = (format == Format::COLOR_PPM ? 3 : 1) + (new_has_alpha ? 1 : 0);
-    new_data.raw = malloc(new_width * new_height * channels_factor * (new_channel_width / 8));
+    // Grayscale data is expanded in place below, so the buffer must be able to
+    // hold the expanded image (new_depth channels), not only the file's data
+    new_data.raw = malloc(new_width * new_height * new_depth * (new_channel_width / 8));
     if (!new_data.raw) {
       throw bad_alloc();
     }
